@@ -7,6 +7,7 @@ import (
 	"sync"
 
 	"github.com/jig/lisp/lib/call"
+	"github.com/jig/lisp/verifhook"
 	"github.com/jig/lisp/types"
 	. "github.com/jig/lisp/types"
 )
@@ -46,6 +47,7 @@ func reset_BANG(atomRef, value MalType) (MalType, error) {
 	atm := atomRef.(*Atom)
 	atm.Mutex.Lock()
 	defer atm.Mutex.Unlock()
+	verifhook.Point("reset.write")
 	atm.Set(value)
 	return value, nil
 }
@@ -57,6 +59,7 @@ func swap_BANG(ctx context.Context, a ...MalType) (MalType, error) {
 	atm := a[0].(*Atom)
 	atm.Mutex.Lock()
 	defer atm.Mutex.Unlock()
+	verifhook.Point("swap.read")
 	args := []MalType{atm.Val}
 	f := a[1]
 	args = append(args, a[2:]...)
@@ -64,6 +67,7 @@ func swap_BANG(ctx context.Context, a ...MalType) (MalType, error) {
 	if e != nil {
 		return nil, e
 	}
+	verifhook.Point("swap.write")
 	atm.Set(res)
 	return res, nil
 }
@@ -88,10 +92,12 @@ func (a *Atom) Set(val MalType) MalType {
 func (a *Atom) Deref(_ context.Context) (MalType, error) {
 	a.Mutex.RLock()
 	defer a.Mutex.RUnlock()
+	verifhook.Point("deref.read")
 	return a.Val, nil
 }
 
 func (a *Atom) LispPrint(pr_str func(MalType, bool) string) string {
+	verifhook.Point("atom.print")
 	return "«atom " + pr_str(a.Val, true) + "»"
 }
 
@@ -120,13 +126,19 @@ func NewFuture(ctx context.Context, fn MalFunc) *Future {
 		CancelFunc: cancel,
 		Fn:         fn,
 	}
+	tok := verifhook.Spawn("future")
 	go func() {
+		verifhook.Enter(tok)
+		defer verifhook.Exit(tok)
 		defer func() { f.Done = true }()
+		defer verifhook.Point("future.delivered")
 		res, err := Apply(ctx, fn, nil)
 		if err != nil {
+			verifhook.Point("future.send")
 			f.ErrChan <- err
 			return
 		}
+		verifhook.Point("future.send")
 		f.ValChan <- res
 	}()
 
@@ -134,8 +146,11 @@ func NewFuture(ctx context.Context, fn MalFunc) *Future {
 }
 
 func (f *Future) Cancel() bool {
+	verifhook.Point("cancel.check")
 	if !f.Done {
+		verifhook.Point("cancel.set")
 		f.Cancelled = true
+		verifhook.Point("cancel.set2")
 		f.Done = true
 		f.CancelFunc()
 	}
@@ -143,13 +158,16 @@ func (f *Future) Cancel() bool {
 }
 
 func (f *Future) Deref(ctx context.Context) (MalType, error) {
+	verifhook.Await(func() bool { return ctx.Err() != nil || len(f.ErrChan) > 0 || len(f.ValChan) > 0 }, "future.deref")
 	select {
 	case <-ctx.Done():
 		return nil, errors.New("timeout while dereferencing future")
 	case err := <-f.ErrChan:
+		verifhook.Point("deref.redeposit")
 		f.ErrChan <- err
 		return nil, err
 	case res := <-f.ValChan:
+		verifhook.Point("deref.redeposit")
 		f.ValChan <- res
 		return res, nil
 	}
